@@ -4,11 +4,14 @@
    list, the kind and the multiset of stored edges, whatever history produced the graph),
    in Proofs/BrandesWF.v and Proofs/EdgeStoreOnly.v, on top of the end-to-end theorems of
    C04 (Proofs/DijkstraWF.v), C06 (Proofs/ClosenessStateOk.v) and C05 (Proofs/BrandesWF.v);
-   for the shortest PATHS of single_source in Proofs/PathsStoreOnly.v. *)
+   for the shortest PATHS of single_source in Proofs/PathsStoreOnly.v; for the other entry points of
+   dijkstra.rs (all_pairs, multi_source, get_all_shortest_paths_involving; every thread count, every
+   arm of `match parallel` under every complete schedule) in Proofs/EntryStoreOnly.v, by composition
+   with C08 (all_pairs / multi_source are single_source per source). *)
 From Coq Require Import List Bool ZArith QArith Lia Permutation.
-From GV Require Import Base.Outcome Base.AMap Model.GState Model.Creation Model.Query Model.Cent Model.Brandes Model.Closeness Model.Dijkstra.
+From GV Require Import Base.Outcome Base.AMap Model.GState Model.Creation Model.Query Model.Cent Model.Brandes Model.Closeness Model.Dijkstra Model.Par Model.ParFns.
 From GV Require Import Spec.AGraph Spec.History Spec.ShortestPathDef Spec.ShortestPathRel Spec.EdgeStoreGraph Spec.EdgeStoreAdj.
-From GV Require Import Proofs.WFDefs Proofs.HistoryOk Proofs.AdjOk Proofs.ClosenessStateOk Proofs.BrandesWF Proofs.EdgeStoreOnly Proofs.BrandesWFExamples Proofs.PathsStoreOnly Proofs.PathsStoreOnlyExamples.
+From GV Require Import Proofs.WFDefs Proofs.HistoryOk Proofs.AdjOk Proofs.ClosenessStateOk Proofs.BrandesWF Proofs.EdgeStoreOnly Proofs.BrandesWFExamples Proofs.PathsStoreOnly Proofs.PathsStoreOnlyExamples Proofs.InvolvingOk Proofs.ParFnsOk Proofs.EntryStoreOnly Proofs.EntryStoreOnlyExamples.
 Import ListNotations.
 
 Section C03.
@@ -218,6 +221,288 @@ Section C03.
            names_of g1 q2 p2 /\ a_SP (edge_arc teqb g1 weighted) (number_of_nodes g1) si j q2).
   Proof. exact (first_path_edge_store_only teqb tltb teqb_spec tltb_asym tltb_total). Qed.
 
+  (* ---------------------------------------------------------------- the other entry points of dijkstra.rs
+     all_pairs / multi_source are single_source per source (C08_model_all_pairs_per_source,
+     C08_model_multi_source_per_source; on every coherent graph C08_reachable_all_pairs,
+     C08_reachable_multi_source), get_all_shortest_paths_involving is a filter of all_pairs
+     (C08_model_involving_filter): composed with the single-source theorems above.  Premises exactly
+     those of C03_paths_depend_on_edge_store_only (resp. C03_distances_..., C03_first_path_...), plus,
+     for multi_source, "the listed sources are node names" (the premise of C08_reachable_multi_source;
+     an absent source is Err NodeNotFound on both graphs).  all_pairs' extra premise in weighted mode
+     (every stored edge carries a weight, C08_reachable_all_pairs) follows from "every stored weight is
+     a real".  No size threshold: ANY thread count on either side, so both values of
+     `number_of_nodes() > 20 && current_num_threads() > 1` are covered.
+
+     Both calls return Ok; the two maps have the same source keys (the node names / the listed
+     sources); under every source key the two inner maps are related exactly as the single-source
+     theorems relate them: with no target the same keys and distances, with a target the same target
+     entry; every name reported by both has the same distance and (first_only = false,
+     with_paths = true, positive weights) duplicate-free path lists with the same paths. *)
+  Theorem C03_all_pairs_depends_on_edge_store_only : forall (s1 s2 : specs) (g1 g2 : gstate) (weighted : bool)
+      (target : option T) (cutoff : option Q) (threads1 threads2 : nat),
+    reachable teqb tltb s1 g1 -> reachable teqb tltb s2 g2 -> directed s1 = directed s2 ->
+    names g1 = names g2 -> Permutation (get_all_edges g1) (get_all_edges g2) ->
+    small_adj g1 -> small_adj g2 ->
+    (weighted = true -> weights_real_positive g1) ->
+    (forall t, target = Some t -> In t (names g1)) ->
+    cutoff_exceeded cutoff 0 = false ->
+    exists mm1 mm2,
+      all_pairs teqb threads1 g1 weighted target cutoff false true = Ok mm1 /\
+      all_pairs teqb threads2 g2 weighted target cutoff false true = Ok mm2 /\
+      (forall s, In s (names g1) <-> exists m, lookup teqb s mm1 = Some m) /\
+      (forall s, In s (names g1) <-> exists m, lookup teqb s mm2 = Some m) /\
+      (forall s m1 m2, lookup teqb s mm1 = Some m1 -> lookup teqb s mm2 = Some m2 ->
+         (forall y, target = None \/ target = Some y ->
+                    option_map sp_distance (lookup teqb y m1) = option_map sp_distance (lookup teqb y m2)) /\
+         (forall y i1 i2, lookup teqb y m1 = Some i1 -> lookup teqb y m2 = Some i2 ->
+            sp_distance i1 = sp_distance i2 /\
+            NoDup (sp_paths i1) /\ NoDup (sp_paths i2) /\
+            (forall p, In p (sp_paths i1) <-> In p (sp_paths i2)) /\
+            Permutation (sp_paths i1) (sp_paths i2))).
+  Proof. exact (all_pairs_paths_edge_store_only teqb tltb teqb_spec tltb_asym tltb_total). Qed.
+
+  Theorem C03_multi_source_depends_on_edge_store_only : forall (s1 s2 : specs) (g1 g2 : gstate) (weighted : bool)
+      (sources : list T) (target : option T) (cutoff : option Q) (threads1 threads2 : nat),
+    reachable teqb tltb s1 g1 -> reachable teqb tltb s2 g2 -> directed s1 = directed s2 ->
+    names g1 = names g2 -> Permutation (get_all_edges g1) (get_all_edges g2) ->
+    small_adj g1 -> small_adj g2 ->
+    (weighted = true -> weights_real_positive g1) ->
+    (forall s, In s sources -> In s (names g1)) ->
+    (forall t, target = Some t -> In t (names g1)) ->
+    cutoff_exceeded cutoff 0 = false ->
+    exists mm1 mm2,
+      multi_source teqb threads1 g1 weighted sources target cutoff false true = Ok mm1 /\
+      multi_source teqb threads2 g2 weighted sources target cutoff false true = Ok mm2 /\
+      (forall s, In s sources <-> exists m, lookup teqb s mm1 = Some m) /\
+      (forall s, In s sources <-> exists m, lookup teqb s mm2 = Some m) /\
+      (forall s m1 m2, lookup teqb s mm1 = Some m1 -> lookup teqb s mm2 = Some m2 ->
+         (forall y, target = None \/ target = Some y ->
+                    option_map sp_distance (lookup teqb y m1) = option_map sp_distance (lookup teqb y m2)) /\
+         (forall y i1 i2, lookup teqb y m1 = Some i1 -> lookup teqb y m2 = Some i2 ->
+            sp_distance i1 = sp_distance i2 /\
+            NoDup (sp_paths i1) /\ NoDup (sp_paths i2) /\
+            (forall p, In p (sp_paths i1) <-> In p (sp_paths i2)) /\
+            Permutation (sp_paths i1) (sp_paths i2))).
+  Proof. exact (multi_source_paths_edge_store_only teqb tltb teqb_spec tltb_asym tltb_total). Qed.
+
+  (* distances alone: any first_only / with_paths, non-negative real weights (the premises of
+     C03_distances_depend_on_edge_store_only) *)
+  Theorem C03_all_pairs_distances_depend_on_edge_store_only : forall (s1 s2 : specs) (g1 g2 : gstate) (weighted : bool)
+      (target : option T) (cutoff : option Q) (fo wp : bool) (threads1 threads2 : nat),
+    reachable teqb tltb s1 g1 -> reachable teqb tltb s2 g2 -> directed s1 = directed s2 ->
+    names g1 = names g2 -> Permutation (get_all_edges g1) (get_all_edges g2) ->
+    small_adj g1 -> small_adj g2 ->
+    (weighted = true -> weights_nonneg g1 /\ weights_real g1) ->
+    (forall t, target = Some t -> In t (names g1)) ->
+    cutoff_exceeded cutoff 0 = false ->
+    exists mm1 mm2,
+      all_pairs teqb threads1 g1 weighted target cutoff fo wp = Ok mm1 /\
+      all_pairs teqb threads2 g2 weighted target cutoff fo wp = Ok mm2 /\
+      (forall s, In s (names g1) <-> exists m, lookup teqb s mm1 = Some m) /\
+      (forall s, In s (names g1) <-> exists m, lookup teqb s mm2 = Some m) /\
+      (forall s m1 m2, lookup teqb s mm1 = Some m1 -> lookup teqb s mm2 = Some m2 ->
+         (forall y i1 i2, lookup teqb y m1 = Some i1 -> lookup teqb y m2 = Some i2 -> sp_distance i1 = sp_distance i2) /\
+         (forall y, target = None \/ target = Some y ->
+                    option_map sp_distance (lookup teqb y m1) = option_map sp_distance (lookup teqb y m2))).
+  Proof. exact (all_pairs_distances_edge_store_only teqb tltb teqb_spec tltb_asym tltb_total). Qed.
+
+  Theorem C03_multi_source_distances_depend_on_edge_store_only : forall (s1 s2 : specs) (g1 g2 : gstate) (weighted : bool)
+      (sources : list T) (target : option T) (cutoff : option Q) (fo wp : bool) (threads1 threads2 : nat),
+    reachable teqb tltb s1 g1 -> reachable teqb tltb s2 g2 -> directed s1 = directed s2 ->
+    names g1 = names g2 -> Permutation (get_all_edges g1) (get_all_edges g2) ->
+    small_adj g1 -> small_adj g2 ->
+    (weighted = true -> weights_nonneg g1 /\ weights_real g1) ->
+    (forall s, In s sources -> In s (names g1)) ->
+    (forall t, target = Some t -> In t (names g1)) ->
+    cutoff_exceeded cutoff 0 = false ->
+    exists mm1 mm2,
+      multi_source teqb threads1 g1 weighted sources target cutoff fo wp = Ok mm1 /\
+      multi_source teqb threads2 g2 weighted sources target cutoff fo wp = Ok mm2 /\
+      (forall s, In s sources <-> exists m, lookup teqb s mm1 = Some m) /\
+      (forall s, In s sources <-> exists m, lookup teqb s mm2 = Some m) /\
+      (forall s m1 m2, lookup teqb s mm1 = Some m1 -> lookup teqb s mm2 = Some m2 ->
+         (forall y i1 i2, lookup teqb y m1 = Some i1 -> lookup teqb y m2 = Some i2 -> sp_distance i1 = sp_distance i2) /\
+         (forall y, target = None \/ target = Some y ->
+                    option_map sp_distance (lookup teqb y m1) = option_map sp_distance (lookup teqb y m2))).
+  Proof. exact (multi_source_distances_edge_store_only teqb tltb teqb_spec tltb_asym tltb_total). Qed.
+
+  (* first_only = true: one path per reported node on each graph, both name forms of shortest paths of the
+     common edge-store graph from the source's index; which one is kept depends on the history *)
+  Theorem C03_all_pairs_first_path_depends_on_edge_store_only : forall (s1 s2 : specs) (g1 g2 : gstate) (weighted : bool)
+      (target : option T) (cutoff : option Q) (threads1 threads2 : nat),
+    reachable teqb tltb s1 g1 -> reachable teqb tltb s2 g2 -> directed s1 = directed s2 ->
+    names g1 = names g2 -> Permutation (get_all_edges g1) (get_all_edges g2) ->
+    small_adj g1 -> small_adj g2 ->
+    (weighted = true -> weights_nonneg g1 /\ weights_real g1) ->
+    (forall t, target = Some t -> In t (names g1)) ->
+    cutoff_exceeded cutoff 0 = false ->
+    exists mm1 mm2,
+      all_pairs teqb threads1 g1 weighted target cutoff true true = Ok mm1 /\
+      all_pairs teqb threads2 g2 weighted target cutoff true true = Ok mm2 /\
+      (forall s, In s (names g1) <-> exists m, lookup teqb s mm1 = Some m) /\
+      (forall s, In s (names g1) <-> exists m, lookup teqb s mm2 = Some m) /\
+      (forall s m1 m2, lookup teqb s mm1 = Some m1 -> lookup teqb s mm2 = Some m2 ->
+         exists si, name_at g1 si = Some s /\
+         (forall y, target = None \/ target = Some y ->
+                    option_map sp_distance (lookup teqb y m1) = option_map sp_distance (lookup teqb y m2)) /\
+         (forall y i1 i2, lookup teqb y m1 = Some i1 -> lookup teqb y m2 = Some i2 ->
+            sp_distance i1 = sp_distance i2 /\
+            exists j p1 p2 q1 q2,
+              name_at g1 j = Some y /\ sp_paths i1 = [p1] /\ sp_paths i2 = [p2] /\
+              names_of g1 q1 p1 /\ a_SP (edge_arc teqb g1 weighted) (number_of_nodes g1) si j q1 /\
+              names_of g1 q2 p2 /\ a_SP (edge_arc teqb g1 weighted) (number_of_nodes g1) si j q2)).
+  Proof. exact (all_pairs_first_path_edge_store_only teqb tltb teqb_spec tltb_asym tltb_total). Qed.
+
+  Theorem C03_multi_source_first_path_depends_on_edge_store_only : forall (s1 s2 : specs) (g1 g2 : gstate) (weighted : bool)
+      (sources : list T) (target : option T) (cutoff : option Q) (threads1 threads2 : nat),
+    reachable teqb tltb s1 g1 -> reachable teqb tltb s2 g2 -> directed s1 = directed s2 ->
+    names g1 = names g2 -> Permutation (get_all_edges g1) (get_all_edges g2) ->
+    small_adj g1 -> small_adj g2 ->
+    (weighted = true -> weights_nonneg g1 /\ weights_real g1) ->
+    (forall s, In s sources -> In s (names g1)) ->
+    (forall t, target = Some t -> In t (names g1)) ->
+    cutoff_exceeded cutoff 0 = false ->
+    exists mm1 mm2,
+      multi_source teqb threads1 g1 weighted sources target cutoff true true = Ok mm1 /\
+      multi_source teqb threads2 g2 weighted sources target cutoff true true = Ok mm2 /\
+      (forall s, In s sources <-> exists m, lookup teqb s mm1 = Some m) /\
+      (forall s, In s sources <-> exists m, lookup teqb s mm2 = Some m) /\
+      (forall s m1 m2, lookup teqb s mm1 = Some m1 -> lookup teqb s mm2 = Some m2 ->
+         exists si, name_at g1 si = Some s /\
+         (forall y, target = None \/ target = Some y ->
+                    option_map sp_distance (lookup teqb y m1) = option_map sp_distance (lookup teqb y m2)) /\
+         (forall y i1 i2, lookup teqb y m1 = Some i1 -> lookup teqb y m2 = Some i2 ->
+            sp_distance i1 = sp_distance i2 /\
+            exists j p1 p2 q1 q2,
+              name_at g1 j = Some y /\ sp_paths i1 = [p1] /\ sp_paths i2 = [p2] /\
+              names_of g1 q1 p1 /\ a_SP (edge_arc teqb g1 weighted) (number_of_nodes g1) si j q1 /\
+              names_of g1 q2 p2 /\ a_SP (edge_arc teqb g1 weighted) (number_of_nodes g1) si j q2)).
+  Proof. exact (multi_source_first_path_edge_store_only teqb tltb teqb_spec tltb_asym tltb_total). Qed.
+
+  (* ... and for EVERY arm of `match parallel` (Model/ParFns.v: Serial; Rayon pi — the rayon region under the
+     schedule pi with rayon::join's panic rule; RayonAbort pi — under the pessimistic rule), possibly
+     different arms and schedules on the two sides, provided the schedule is complete ([arm_schedule]:
+     a permutation of the work-item indices).  The `_sched` functions of C07 (arm chosen from node count
+     and thread count like the Rust code) are these functions at [arm_of]. *)
+  Theorem C03_arm_schedule_unfold : forall (n : nat) (a : arm),
+    arm_schedule n a <-> match a with Serial => True | Rayon pi | RayonAbort pi => Permutation pi (seq 0 n) end.
+  Proof. intros n a. destruct a; reflexivity. Qed.
+
+  Theorem C03_sched_functions_are_arms : forall (g : gstate) (threads : nat) (pi : list nat),
+    (forall n, schedule n pi -> arm_schedule n (arm_of g threads pi)) /\
+    (forall weighted target cutoff fo wp,
+       all_pairs_sched teqb threads pi g weighted target cutoff fo wp =
+       all_pairs_arm teqb (arm_of g threads pi) g weighted target cutoff fo wp) /\
+    (forall weighted sources target cutoff fo wp,
+       multi_source_sched teqb threads pi g weighted sources target cutoff fo wp =
+       multi_source_arm teqb (arm_of g threads pi) g weighted sources target cutoff fo wp) /\
+    (forall x weighted,
+       get_all_shortest_paths_involving_sched teqb threads pi g x weighted =
+       get_all_shortest_paths_involving_arm teqb (arm_of g threads pi) g x weighted).
+  Proof. exact (sched_functions_are_arms teqb). Qed.
+
+  Theorem C03_all_pairs_arm_depends_on_edge_store_only : forall (s1 s2 : specs) (g1 g2 : gstate) (weighted : bool)
+      (target : option T) (cutoff : option Q) (a1 a2 : arm),
+    reachable teqb tltb s1 g1 -> reachable teqb tltb s2 g2 -> directed s1 = directed s2 ->
+    names g1 = names g2 -> Permutation (get_all_edges g1) (get_all_edges g2) ->
+    small_adj g1 -> small_adj g2 ->
+    (weighted = true -> weights_real_positive g1) ->
+    (forall t, target = Some t -> In t (names g1)) ->
+    cutoff_exceeded cutoff 0 = false ->
+    arm_schedule (number_of_nodes g1) a1 -> arm_schedule (number_of_nodes g2) a2 ->
+    exists mm1 mm2,
+      all_pairs_arm teqb a1 g1 weighted target cutoff false true = Ok mm1 /\
+      all_pairs_arm teqb a2 g2 weighted target cutoff false true = Ok mm2 /\
+      (forall s, In s (names g1) <-> exists m, lookup teqb s mm1 = Some m) /\
+      (forall s, In s (names g1) <-> exists m, lookup teqb s mm2 = Some m) /\
+      (forall s m1 m2, lookup teqb s mm1 = Some m1 -> lookup teqb s mm2 = Some m2 ->
+         (forall y, target = None \/ target = Some y ->
+                    option_map sp_distance (lookup teqb y m1) = option_map sp_distance (lookup teqb y m2)) /\
+         (forall y i1 i2, lookup teqb y m1 = Some i1 -> lookup teqb y m2 = Some i2 ->
+            sp_distance i1 = sp_distance i2 /\
+            NoDup (sp_paths i1) /\ NoDup (sp_paths i2) /\
+            (forall p, In p (sp_paths i1) <-> In p (sp_paths i2)) /\
+            Permutation (sp_paths i1) (sp_paths i2))).
+  Proof. exact (all_pairs_arm_paths_edge_store_only teqb tltb teqb_spec tltb_asym tltb_total). Qed.
+
+  Theorem C03_multi_source_arm_depends_on_edge_store_only : forall (s1 s2 : specs) (g1 g2 : gstate) (weighted : bool)
+      (sources : list T) (target : option T) (cutoff : option Q) (a1 a2 : arm),
+    reachable teqb tltb s1 g1 -> reachable teqb tltb s2 g2 -> directed s1 = directed s2 ->
+    names g1 = names g2 -> Permutation (get_all_edges g1) (get_all_edges g2) ->
+    small_adj g1 -> small_adj g2 ->
+    (weighted = true -> weights_real_positive g1) ->
+    (forall s, In s sources -> In s (names g1)) ->
+    (forall t, target = Some t -> In t (names g1)) ->
+    cutoff_exceeded cutoff 0 = false ->
+    arm_schedule (length sources) a1 -> arm_schedule (length sources) a2 ->
+    exists mm1 mm2,
+      multi_source_arm teqb a1 g1 weighted sources target cutoff false true = Ok mm1 /\
+      multi_source_arm teqb a2 g2 weighted sources target cutoff false true = Ok mm2 /\
+      (forall s, In s sources <-> exists m, lookup teqb s mm1 = Some m) /\
+      (forall s, In s sources <-> exists m, lookup teqb s mm2 = Some m) /\
+      (forall s m1 m2, lookup teqb s mm1 = Some m1 -> lookup teqb s mm2 = Some m2 ->
+         (forall y, target = None \/ target = Some y ->
+                    option_map sp_distance (lookup teqb y m1) = option_map sp_distance (lookup teqb y m2)) /\
+         (forall y i1 i2, lookup teqb y m1 = Some i1 -> lookup teqb y m2 = Some i2 ->
+            sp_distance i1 = sp_distance i2 /\
+            NoDup (sp_paths i1) /\ NoDup (sp_paths i2) /\
+            (forall p, In p (sp_paths i1) <-> In p (sp_paths i2)) /\
+            Permutation (sp_paths i1) (sp_paths i2))).
+  Proof. exact (multi_source_arm_paths_edge_store_only teqb tltb teqb_spec tltb_asym tltb_total). Qed.
+
+  (* get_all_shortest_paths_involving(x) returns the all-pairs entries (distance, path list) having a path
+     with x strictly inside (C08_model_involving_filter), WITHOUT their (source, target) keys and in the
+     iteration order of the two hash maps.  Positive weights: both calls return Ok; the two lists are the
+     same collection up to order and up to the order of each path list — some permutation of l2 is, entry
+     by entry, l1 with equal distance and a permuted (duplicate-free) path list; hence equal lengths and
+     mutual inclusion; and the all-pairs entry of a pair (s, t) is kept on one graph iff it is on the other. *)
+  Theorem C03_involving_depends_on_edge_store_only : forall (s1 s2 : specs) (g1 g2 : gstate) (weighted : bool)
+      (x : T) (threads1 threads2 : nat),
+    reachable teqb tltb s1 g1 -> reachable teqb tltb s2 g2 -> directed s1 = directed s2 ->
+    names g1 = names g2 -> Permutation (get_all_edges g1) (get_all_edges g2) ->
+    small_adj g1 -> small_adj g2 ->
+    (weighted = true -> weights_real_positive g1) ->
+    exists pairs1 pairs2 l1 l2,
+      all_pairs teqb threads1 g1 weighted None None false true = Ok pairs1 /\
+      all_pairs teqb threads2 g2 weighted None None false true = Ok pairs2 /\
+      get_all_shortest_paths_involving teqb threads1 g1 x weighted = Ok l1 /\
+      get_all_shortest_paths_involving teqb threads2 g2 x weighted = Ok l2 /\
+      (exists l2', Permutation l2 l2' /\
+         Forall2 (fun a b => sp_distance a = sp_distance b /\ NoDup (sp_paths a) /\ NoDup (sp_paths b) /\
+                             Permutation (sp_paths a) (sp_paths b)) l1 l2') /\
+      length l1 = length l2 /\
+      (forall a, In a l1 -> exists b, In b l2 /\
+         sp_distance a = sp_distance b /\ NoDup (sp_paths a) /\ NoDup (sp_paths b) /\ Permutation (sp_paths a) (sp_paths b)) /\
+      (forall b, In b l2 -> exists a, In a l1 /\
+         sp_distance a = sp_distance b /\ NoDup (sp_paths a) /\ NoDup (sp_paths b) /\ Permutation (sp_paths a) (sp_paths b)) /\
+      (forall s t m1 m2 i1 i2,
+         lookup teqb s pairs1 = Some m1 -> lookup teqb t m1 = Some i1 ->
+         lookup teqb s pairs2 = Some m2 -> lookup teqb t m2 = Some i2 ->
+         (sp_distance i1 = sp_distance i2 /\ NoDup (sp_paths i1) /\ NoDup (sp_paths i2) /\
+          Permutation (sp_paths i1) (sp_paths i2)) /\
+         (In i1 l1 <-> In i2 l2)).
+  Proof. exact (involving_edge_store_only teqb tltb teqb_spec tltb_asym tltb_total). Qed.
+
+  Theorem C03_involving_arm_depends_on_edge_store_only : forall (s1 s2 : specs) (g1 g2 : gstate) (weighted : bool)
+      (x : T) (a1 a2 : arm),
+    reachable teqb tltb s1 g1 -> reachable teqb tltb s2 g2 -> directed s1 = directed s2 ->
+    names g1 = names g2 -> Permutation (get_all_edges g1) (get_all_edges g2) ->
+    small_adj g1 -> small_adj g2 ->
+    (weighted = true -> weights_real_positive g1) ->
+    arm_schedule (number_of_nodes g1) a1 -> arm_schedule (number_of_nodes g2) a2 ->
+    exists l1 l2,
+      get_all_shortest_paths_involving_arm teqb a1 g1 x weighted = Ok l1 /\
+      get_all_shortest_paths_involving_arm teqb a2 g2 x weighted = Ok l2 /\
+      (exists l2', Permutation l2 l2' /\
+         Forall2 (fun a b => sp_distance a = sp_distance b /\ NoDup (sp_paths a) /\ NoDup (sp_paths b) /\
+                             Permutation (sp_paths a) (sp_paths b)) l1 l2') /\
+      length l1 = length l2 /\
+      (forall a, In a l1 -> exists b, In b l2 /\
+         sp_distance a = sp_distance b /\ NoDup (sp_paths a) /\ NoDup (sp_paths b) /\ Permutation (sp_paths a) (sp_paths b)) /\
+      (forall b, In b l2 -> exists a, In a l1 /\
+         sp_distance a = sp_distance b /\ NoDup (sp_paths a) /\ NoDup (sp_paths b) /\ Permutation (sp_paths a) (sp_paths b)).
+  Proof. exact (involving_arm_edge_store_only teqb tltb teqb_spec tltb_asym tltb_total). Qed.
+
   (* C06 (quotes C06_closeness_reachable): same keys in the same order, equal values *)
   Theorem C03_closeness_depends_on_edge_store_only : forall (s1 s2 : specs) (g1 g2 : gstate) lw1 lw2 weighted wf,
     reachable teqb tltb s1 g1 -> reachable teqb tltb s2 g2 -> directed s1 = directed s2 ->
@@ -284,6 +569,44 @@ Theorem C03_paths_edge_store_only_nonvacuous :
   paths_to 4 (single_source Z.eqb pa_g true 1%Z None None true true) = Some [[1; 3; 4]]%Z /\
   paths_to 4 (single_source Z.eqb pa_g' true 1%Z None None true true) = Some [[1; 2; 4]]%Z.
 Proof. exact paths_edge_store_only_nonvacuous. Qed.
+
+(* non-vacuity of the all_pairs / multi_source / involving theorems on the same two graphs (premises:
+   C03_paths_edge_store_only_nonvacuous), 1 thread on one side and 8 on the other: the pair (1, 5) has two
+   shortest paths, reported by both graphs in a DIFFERENT order under all_pairs and under multi_source
+   (target 5, cutoff = the realised distance 4, a source listed twice); get_all_shortest_paths_involving(4)
+   returns three entries on both graphs, the two lists are NOT equal (path order of the first entry) but
+   equal up to it; the rayon arm under a reversed schedule, the pessimistic arm under a shuffled one
+   return what the serial model returns *)
+Theorem C03_entry_points_edge_store_only_nonvacuous :
+  source_keys (all_pairs Z.eqb 1 pa_g true None None false true) = Some [1; 2; 3; 4; 5]%Z /\
+  source_keys (all_pairs Z.eqb 8 pa_g' true None None false true) = Some [1; 2; 3; 4; 5]%Z /\
+  entry_of 1 5 (all_pairs Z.eqb 1 pa_g true None None false true) = Some (4, [[1; 3; 4; 5]; [1; 2; 4; 5]])%Z /\
+  entry_of 1 5 (all_pairs Z.eqb 8 pa_g' true None None false true) = Some (4, [[1; 2; 4; 5]; [1; 3; 4; 5]])%Z /\
+  entry_of 2 5 (all_pairs Z.eqb 1 pa_g true None None false true) = Some (3, [[2; 4; 5]])%Z /\
+  entry_of 2 5 (all_pairs Z.eqb 8 pa_g' true None None false true) = Some (3, [[2; 4; 5]])%Z /\
+  source_keys (multi_source Z.eqb 1 pa_g true [4; 1; 1]%Z (Some 5%Z) (Some 4%Q) false true) = Some [4; 1]%Z /\
+  source_keys (multi_source Z.eqb 8 pa_g' true [4; 1; 1]%Z (Some 5%Z) (Some 4%Q) false true) = Some [4; 1]%Z /\
+  entry_of 1 5 (multi_source Z.eqb 1 pa_g true [4; 1; 1]%Z (Some 5%Z) (Some 4%Q) false true)
+    = Some (4, [[1; 3; 4; 5]; [1; 2; 4; 5]])%Z /\
+  entry_of 1 5 (multi_source Z.eqb 8 pa_g' true [4; 1; 1]%Z (Some 5%Z) (Some 4%Q) false true)
+    = Some (4, [[1; 2; 4; 5]; [1; 3; 4; 5]])%Z /\
+  infos (get_all_shortest_paths_involving Z.eqb 1 pa_g 4%Z true)
+    = Some [(4, [[1; 3; 4; 5]; [1; 2; 4; 5]]); (3, [[2; 4; 5]]); (3, [[3; 4; 5]])]%Z /\
+  infos (get_all_shortest_paths_involving Z.eqb 8 pa_g' 4%Z true)
+    = Some [(4, [[1; 2; 4; 5]; [1; 3; 4; 5]]); (3, [[2; 4; 5]]); (3, [[3; 4; 5]])]%Z /\
+  get_all_shortest_paths_involving Z.eqb 1 pa_g 4%Z true <> get_all_shortest_paths_involving Z.eqb 8 pa_g' 4%Z true /\
+  arm_schedule (number_of_nodes pa_g) (Rayon [4; 3; 2; 1; 0]%nat) /\
+  arm_schedule (number_of_nodes pa_g') (RayonAbort [2; 0; 4; 1; 3]%nat) /\
+  arm_schedule (length [4; 1; 1]%Z) (Rayon [2; 0; 1]%nat) /\
+  all_pairs_arm Z.eqb (Rayon [4; 3; 2; 1; 0]%nat) pa_g true None None false true
+    = all_pairs Z.eqb 1 pa_g true None None false true /\
+  all_pairs_arm Z.eqb (RayonAbort [2; 0; 4; 1; 3]%nat) pa_g' true None None false true
+    = all_pairs Z.eqb 8 pa_g' true None None false true /\
+  multi_source_arm Z.eqb (Rayon [2; 0; 1]%nat) pa_g' true [4; 1; 1]%Z (Some 5%Z) (Some 4%Q) false true
+    = multi_source Z.eqb 8 pa_g' true [4; 1; 1]%Z (Some 5%Z) (Some 4%Q) false true /\
+  get_all_shortest_paths_involving_arm Z.eqb (RayonAbort [2; 0; 4; 1; 3]%nat) pa_g' 4%Z true
+    = get_all_shortest_paths_involving Z.eqb 8 pa_g' 4%Z true.
+Proof. exact entry_points_edge_store_only_nonvacuous. Qed.
 
 (* the positivity premise of the all-paths theorems is necessary: two histories under the SAME
    GraphSpecs, same nodes, edges 1->2 (1), 1->3 (1), 2->3 (0) inserted in two orders; the shortest
